@@ -69,10 +69,18 @@ def make_X(rng, n, p, kind="gauss", rho=0.5, density=1.0):
         X = rng.standard_normal((n, p)) * (10.0 ** rng.uniform(-2, 2, size=p))
     elif kind == "shifted":
         X = rng.standard_normal((n, p)) + rng.uniform(-3, 3, size=p)
+    elif kind == "centered":
+        X = rng.standard_normal((n, p)) * (10.0 ** rng.uniform(-1, 1, size=p))
     else:
         raise KeyError(kind)
     if density < 1.0:
         X = X * (rng.random((n, p)) < density)
+    if kind == "centered":
+        # standardised-style designs: every column sums to zero over its support (X^T 1 = 0 up to rounding)
+        for j in range(p):
+            nz = X[:, j] != 0
+            if nz.sum() > 1:
+                X[nz, j] -= X[nz, j].mean()
     return np.asfortranarray(X)
 
 
@@ -352,5 +360,15 @@ def to_storage(X, storage):
             ind[sl] = ind[sl][::-1]
         out = sp.csc_matrix((data, ind, ptr.copy()), shape=Xs.shape)
         out.has_sorted_indices = False
+        return out
+    if storage == "csc_explicit0":
+        # CSC that stores every entry of each column explicitly, zeros included (what masking X.data in place, or
+        # arithmetic on a sparse matrix without eliminate_zeros(), leaves behind)
+        Xd = np.asarray(X, float)
+        n, p = Xd.shape
+        data = Xd.T.ravel().copy()
+        indices = np.tile(np.arange(n, dtype=np.int32), p)
+        indptr = (np.arange(p + 1) * n).astype(np.int32)
+        out = sp.csc_matrix((data, indices, indptr), shape=(n, p))
         return out
     raise KeyError(storage)
